@@ -812,6 +812,15 @@ def run_property(prop, tier, seed):
         "engine T: a character without table entry, a blank and an off-grid cell all contribute Property::empty() "
         "(property_buffer.rs get(..).unwrap_or(empty)) - read, not solved",
     ]
+    if getattr(tr, "circle_validation", None):
+        out["circle_catalogue_validation"] = tr.circle_validation
+        out["functions"] += ["map::circle_map::CIRCLE_ART_MAP (%d entries, data read from the source)" % tr.circle_validation["entries"],
+                             "CircleArt::width/radius/edge_increment_x/center, CIRCLES_SPAN, Span::endorse circle placement (shape-checked, re-stated in SMT)"]
+        out["assumptions"].append(
+            "engine T (O12.3): CircleArt::width/radius/edge_increment_x/center are one-line arithmetic re-stated in SMT after a "
+            "shape check of their source (a changed shape => INCONCLUSIVE); the model's circle of every catalogue entry is compared "
+            "with the real crate's rendering of that entry on every run (%d entries, %d disagreements)"
+            % (tr.circle_validation["entries"], tr.circle_validation["disagreements"]))
     out["wall_s"] = round(time.time() - t0, 1)
     out["native_build_s"] = round(tr.native.build_s, 1)
     return out
@@ -819,6 +828,9 @@ def run_property(prop, tier, seed):
 
 def replay_file(path):
     text = open(path).read()
+    mc = re.search(r"^circle_entry (\d+) (\d+) (\d+)$", text, re.M)
+    if mc:
+        return replay_circle(path, text, *[int(x) for x in mc.groups()])
     m = re.search(r"^grid9 (.*)$", text, re.M)
     if not m:
         print("cannot parse")
@@ -1333,3 +1345,218 @@ def q_c05(tr):
 
 QUERIES["C05"] = q_c05
 PROPS.add("C05")
+
+
+# ---------------------------------------------------------------------------
+# C12 (circle catalogue): every catalogue circle, placed anywhere, lies inside the canvas its own
+# drawing implies.  The catalogue (map/circle_map.rs CIRCLE_ART_MAP) is behind once_cell::Lazy and
+# therefore out of Kani's reach; its data is read from the source on every run and the entry index
+# and the placement are symbolic.
+
+CIRCLE_SHAPES = [
+    ("CircleArt::width", r"fn width\(&self\) -> f32 \{\s*let cb = CellBuffer::from\(self\.ascii_art\);\s*let \(lo, hi\) = cb\.bounds\(\)\.expect\(\"circle must have bounds\"\);\s*match self\.start_edge \{\s*Horizontal::LeftEdge => \(hi\.x - lo\.x\) as f32 \+ 1\.0,\s*Horizontal::Half => \(hi\.x - lo\.x\) as f32,\s*\}\s*\}"),
+    ("CircleArt::center", r"fn center\(&self\) -> Point \{\s*let center_x = self\.radius\(\) \+ self\.edge_increment_x\(\);\s*let center_y = self\.offset_center_y \* 2\.0;\s*Point::new\(center_x, center_y\)\s*\}"),
+    ("CircleArt::edge_increment_x", r"fn edge_increment_x\(&self\) -> f32 \{\s*match self\.start_edge \{\s*Horizontal::LeftEdge => 0\.0,\s*Horizontal::Half => 0\.5,\s*\}\s*\}"),
+    ("CircleArt::radius", r"fn radius\(&self\) -> f32 \{\s*self\.width\(\) / 2\.0\s*\}"),
+    ("CIRCLES_SPAN", r"Circle::new\(circle_art\.center\(\), circle_art\.radius\(\), false\),\s*span,"),
+    ("CIRCLE_MAP", r"CircleArt \{\s*ascii_art: \*art,\s*start_edge: \*edge_case,\s*offset_center_x: \*offset_center_x,\s*offset_center_y: \*offset_center_y,\s*\}"),
+]
+
+
+def load_circle_catalogue(src_root):
+    src = open(os.path.join(src_root, "map", "circle_map.rs")).read()
+    for nm, pat in CIRCLE_SHAPES:
+        if not re.search(pat, src):
+            raise tables.Unsupported("circle_map.rs: %s changed shape" % nm)
+    span_src = open(os.path.join(src_root, "buffer", "cell_buffer", "span.rs")).read()
+    if not re.search(r"let \(top_left, _\) = self\.bounds\(\)\.expect\(\"must have bounds\"\);\s*let un_endorsed_span: Span = "
+                     r"if let Some\(\(circle, un_endorsed_span\)\) =\s*circle_map::endorse_circle_span\(&self\)\s*\{\s*"
+                     r"let circle = circle\.absolute_position\(top_left\);", span_src):
+        raise tables.Unsupported("span.rs: placement of an endorsed circle changed shape")
+    i = src.index("static CIRCLE_ART_MAP")
+    j = src.index("});", i)
+    body = src[i:j]
+    ents = re.findall(r'\(\s*r#"(.*?)"#,\s*Horizontal::(\w+),\s*([\d.]+),\s*([\d.]+),\s*Cell::new\((\d+),\s*(\d+)\),?\s*\)', body, re.S)
+    if not ents or len(ents) != body.count('r#"'):
+        raise tables.Unsupported("CIRCLE_ART_MAP: %d of %d entries parsed" % (len(ents), body.count('r#"')))
+    out = []
+    for art, edge, ox, oy, _a, _b in ents:
+        if edge not in ("LeftEdge", "Half"):
+            raise tables.Unsupported("Horizontal::%s" % edge)
+        lines = art.split("\n")
+        cells = [(x, y) for y, l in enumerate(lines) for x, ch in enumerate(l) if not ch.isspace()]
+        lo, hi = min(x for x, y in cells), max(x for x, y in cells)
+        ylo, yhi = min(y for x, y in cells), max(y for x, y in cells)
+        rows = [l[lo:hi + 1].rstrip() for l in lines[ylo:yhi + 1]]
+        out.append({"art": rows, "edge": edge, "ox": Fraction(ox), "oy": Fraction(oy),
+                    "w": hi - lo, "cols": hi - lo + 1, "rows": yhi - ylo + 1})
+    return out
+
+
+def circle_model(e):
+    width = Fraction(e["w"]) + (1 if e["edge"] == "LeftEdge" else 0)
+    r = width / 2
+    cx = r + (0 if e["edge"] == "LeftEdge" else Fraction(1, 2))
+    return cx, e["oy"] * 2, r
+
+
+def native_circle(tr, e, k, n):
+    text = "\n" * n + "\n".join(" " * k + row for row in e["art"])
+    tr.native.p.stdin.write("S 1 " + text.replace("\n", "\\n") + "\n")
+    tr.native.p.stdin.flush()
+    svg = tr.native.p.stdout.readline()
+    body = re.sub(r"<defs>.*?</defs>", "", svg, flags=re.S)   # marker definitions contain circles of their own
+    circles = re.findall(r'<circle[^>]*?cx="([-\d.]+)"[^>]*?cy="([-\d.]+)"[^>]*?r="([-\d.]+)"', body)
+    m = re.search(r'<svg[^>]*?height="([-\d.]+)"[^>]*?width="([-\d.]+)"', svg) or None
+    if m:
+        h, w = float(m.group(1)), float(m.group(2))
+    else:
+        m = re.search(r'<svg[^>]*?width="([-\d.]+)"[^>]*?height="([-\d.]+)"', svg)
+        if not m:
+            return None
+        w, h = float(m.group(1)), float(m.group(2))
+    return [tuple(float(v) for v in c) for c in circles], w, h, text
+
+
+def q_c12_circles(tr):
+    try:
+        cat = load_circle_catalogue(os.path.join(core.CRATE, "src"))
+    except tables.Unsupported as e:
+        tr.add("o12_3_circle_catalogue", "O12.3", "circle catalogue", "inconclusive",
+               reason="circle catalogue is outside the translatable subset: %s" % e)
+        return
+    # translator validation: every entry, rendered by the real crate at the origin, gives the model's circle
+    bad = []
+    for idx, e in enumerate(cat):
+        got = native_circle(tr, e, 0, 0)
+        cx, cy, r = circle_model(e)
+        want = (float(cx), float(cy), float(r))
+        if not got or len(got[0]) != 1 or any(abs(a - b) > 1e-4 for a, b in zip(got[0][0], want)):
+            bad.append((idx, want, got and got[0]))
+    tr.circle_validation = {"entries": len(cat), "disagreements": len(bad)}
+    if bad:
+        tr.add("o12_3_circle_catalogue", "O12.3", "circle catalogue", "inconclusive",
+               reason="catalogue model and real crate disagree on entry %d: model %r, rendered %r" % bad[0])
+        return
+    N = len(cat)
+    ite = lambda f: "".join("(ite (= ci %d) %s " % (i, f(e)) for i, e in enumerate(cat[:-1])) + f(cat[-1]) + ")" * (N - 1)
+    num = lambda q: "(/ %d.0 %d.0)" % (Fraction(q).numerator, Fraction(q).denominator)
+    decl = ["(declare-const ci Int)", "(declare-const pk Int)", "(declare-const pn Int)",
+            "(define-fun cW () Real %s)" % ite(lambda e: num(e["w"])),
+            "(define-fun cEdge () Bool %s)" % ite(lambda e: "true" if e["edge"] == "LeftEdge" else "false"),
+            "(define-fun cOY () Real %s)" % ite(lambda e: num(e["oy"])),
+            "(define-fun cCols () Real %s)" % ite(lambda e: num(e["cols"])),
+            "(define-fun cRows () Real %s)" % ite(lambda e: num(e["rows"])),
+            # CircleArt::width / radius / edge_increment_x / center, Circle::absolute_position(top_left)
+            "(define-fun cWidth () Real (ite cEdge (+ cW 1.0) cW))",
+            "(define-fun cR () Real (/ cWidth 2.0))",
+            "(define-fun cX () Real (+ (to_real pk) cR (ite cEdge 0.0 0.5)))",
+            "(define-fun cY () Real (+ (* 2.0 (to_real pn)) (* cOY 2.0)))",
+            # canvas: one cell beyond the last occupied column / row (cell = 1 x 2 units)
+            "(define-fun canW () Real (+ (to_real pk) cCols 1.0))",
+            "(define-fun canH () Real (* 2.0 (+ (to_real pn) cRows 1.0)))"]
+    rng = "(and (<= 0 ci) (< ci %d) (<= 0 pk) (<= 0 pn))" % N
+    viol = "(or (< (- cX cR) 0.0) (< (- cY cR) 0.0) (> (+ cX cR) canW) (> (+ cY cR) canH))"
+    s = tr.solver
+    t0 = time.time()
+    block = ["(push 1)"] + decl + ["(assert %s)" % rng, "(assert %s)" % viol, "(check-sat)"]
+    s.script.extend(block)
+    s._send("\n".join(block))
+    res = s._readline()
+    while res.startswith("(error"):
+        res = s._readline()
+    vals = {}
+    if res == "sat":
+        s._send("(get-value (ci pk pn))")
+        txt, depth = "", 0
+        while True:
+            ln = s.p.stdout.readline()
+            txt += ln
+            depth += ln.count("(") - ln.count(")")
+            if depth <= 0 and txt.strip():
+                break
+        vals = {a: int(b) for a, b in re.findall(r"\((\w+) (\d+)\)", txt)}
+    # vacuity witness: the range constraint alone is satisfiable
+    s._send("(pop 1)")
+    s.script.append("(pop 1)")
+    s.time += time.time() - t0
+    s.results.append(res)
+    tr.nq += 1
+    name = "o12_3_circle_catalogue"
+    desc = ("every entry of the circle catalogue (%d entries read from CIRCLE_ART_MAP, entry index symbolic), its "
+            "drawing placed with its top-left occupied cell at any column k >= 0 and row n >= 0 (symbolic, unbounded): "
+            "the circle Circle::new(center(), radius()).absolute_position(top_left) lies inside the canvas that is one "
+            "cell wider and taller than the drawing's last occupied column and row, and right of / below 0" % N)
+    if res == "unsat":
+        tr.add(name, "O12.3", desc, "pass", solver_s=round(time.time() - t0, 4), queries=1)
+        return
+    if res != "sat" or "ci" not in vals:
+        tr.add(name, "O12.3", desc, "inconclusive", reason="solver answered %s" % res, queries=1)
+        return
+    e = cat[vals["ci"]]
+    k, n = min(vals.get("pk", 0), 40), min(vals.get("pn", 0), 40)
+    got = native_circle(tr, e, k, n)
+    rep = False
+    if got and len(got[0]) == 1:
+        (cx, cy, r), w, h, text = got[0][0], got[1], got[2], got[3]
+        rep = cx - r < -1e-4 or cy - r < -1e-4 or cx + r > w + 1e-4 or cy + r > h + 1e-4
+    os.makedirs(os.path.join(core.VERIF, "replays"), exist_ok=True)
+    path = os.path.join(core.VERIF, "replays", "%s-T-%s.txt" % (tr.prop, name))
+    with open(path, "w") as f:
+        f.write("# tablesmt counterexample for property %s, obligation O12.3 (%s)\n" % (tr.prop, name))
+        f.write("# violated: catalogue circle %d placed at column %d, row %d leaves the canvas\n" % (vals["ci"], k, n))
+        f.write("circle_entry %d %d %d\n" % (vals["ci"], k, n))
+        for row in e["art"]:
+            f.write("#   |%s|\n" % row)
+        f.write("native_render %r\n" % (got and (got[0], got[1], got[2]),))
+        f.write("reproduced %s\n" % rep)
+    tr.add(name, "O12.3", desc, "fail" if rep else "inconclusive",
+           reason="" if rep else "counterexample does not reproduce on the real crate",
+           key="a catalogue circle leaves the canvas", reproduced=rep, replay=path,
+           counterexample=e["art"], queries=1, solver_s=round(time.time() - t0, 4))
+
+
+_q_c12_prev = q_c12
+
+
+def q_c12_all(tr):
+    _q_c12_prev(tr)
+    q_c12_circles(tr)
+
+
+QUERIES["C12"] = q_c12_all
+
+
+def replay_circle(path, text, ci, k, n):
+    class _TR:
+        pass
+    tr = _TR()
+    tr.native = Native()
+    err = tr.native.build()
+    if err:
+        print("INCONCLUSIVE native oracle does not build")
+        return 2
+    try:
+        cat = load_circle_catalogue(os.path.join(core.CRATE, "src"))
+    except tables.Unsupported as e:
+        print("INCONCLUSIVE circle catalogue not readable: %s" % e)
+        return 2
+    if ci >= len(cat):
+        print("catalogue entry %d no longer exists" % ci)
+        return 0
+    e = cat[ci]
+    got = native_circle(tr, e, k, n)
+    tr.native.close()
+    print("catalogue entry %d at column %d, row %d:" % (ci, k, n))
+    for row in e["art"]:
+        print("  |%s|" % (" " * k + row))
+    print("real code renders (scale 1): circles %r, canvas %r x %r" % (got and got[0], got and got[1], got and got[2]))
+    if got and len(got[0]) == 1:
+        (cx, cy, r), w, h = got[0][0], got[1], got[2]
+        if cx - r < -1e-4 or cy - r < -1e-4 or cx + r > w + 1e-4 or cy + r > h + 1e-4:
+            mp = re.search(r"counterexample for property (\S+),", text)
+            print("the circle leaves the canvas")
+            print("VIOLATION property=%s replay=%s" % (mp.group(1) if mp else "?", path))
+            return 1
+    print("the circle lies inside the canvas: the counterexample does not reproduce on this tree")
+    return 0
